@@ -2655,4 +2655,200 @@ theorem endOfQueryCleanupPos_wired (imp : String) (g : LGraph) (s nm : String) (
   rw [hg2']
 
 
+/-! ### the statement with column list -/
+
+/-- **specification, column list**: item `i` of the select list goes to column `i` of the list -/
+def specPairsPos (env : Env) (tgt : List String) (cs : List String) (its : List Item) (frm : List FromExpr) :
+    List (Node × Node) :=
+  (its.zip cs).flatMap (fun ic =>
+    match ic.1 with
+    | .mk e _ _ => (refs e).map (fun r =>
+        ((srcCol env.importDefault (fromTabs env frm) (normRef r)).key,
+         (Column.mk1 (Ident.escapeS ic.2) (some ((mkTable env tgt none).d, (mkTable env tgt none).printed))).key)))
+
+/-- the HAS_COLUMN edges of the column list itself: the written table owns every listed column, wired or not -/
+def listedOwners (env : Env) (tgt : List String) (cs : List String) : List (Node × Node) :=
+  (listedCols ((mkTable env tgt none).d, (mkTable env tgt none).printed) cs).map
+    (fun c => (Node.ds (mkTable env tgt none).d, c.key))
+
+/-- one SELECT block over base tables, no subquery, not reading the written table; as many listed columns as select
+    items, the listed names pairwise different -/
+def fragSelectCols (env : Env) (tgt : List String) (cs : List String) : Query → Bool
+  | .select _ its frm wh _ _ =>
+    let tabs := fromTabs env frm
+    let T := (mkTable env tgt none).d
+    frm.all feOK && noSubOpt wh && aliasesUnambiguous tabs && !(tabs.any (fun o => o.d == T)) &&
+      (its.length == cs.length) &&
+      decide (((listedCols (T, (mkTable env tgt none).printed) cs).map (·.key)).Nodup) &&
+      its.all (itemOK env.importDefault tabs (some T))
+  | _ => false
+
+/-- `INSERT INTO T (c1, …, cn) <select>`, `CREATE VIEW T (c1, …, cn) AS <select>` -/
+def fragStmtCols (env : Env) : Stmt → Bool
+  | .insert _ _ tgt (some cs) q _ => fragSelectCols env tgt cs q
+  | .createView tgt _ (some cs) q => fragSelectCols env tgt cs q
+  | _ => false
+
+def stmtCols : Stmt → List String
+  | .insert _ _ _ (some cs) _ _ => cs
+  | .createView _ _ (some cs) _ => cs
+  | _ => []
+
+theorem posPairs_spec (env : Env) (tgt : List String) (cs : List String) (its : List Item) (frm : List FromExpr)
+    (x : Node × Node) :
+    x ∈ posPairs (KEYSof env.importDefault (fromTabs env frm))
+        ((its.map (colSpecOf env)).zip (listedCols ((mkTable env tgt none).d, (mkTable env tgt none).printed) cs)) ↔
+      x ∈ specPairsPos env tgt cs its frm := by
+  unfold posPairs specPairsPos KEYSof listedCols
+  rw [List.zip_map]
+  simp only [List.mem_flatMap, List.mem_map]
+  constructor
+  · rintro ⟨cw, ⟨ic, hic, rfl⟩, a, ⟨r, hr, rfl⟩, rfl⟩
+    refine ⟨ic, hic, ?_⟩
+    obtain ⟨⟨e, al, kw⟩, cn⟩ := ic
+    simp only [Prod.map_apply] at hr ⊢
+    rw [colSpecOf_srcs] at hr
+    obtain ⟨r0, hr0, rfl⟩ := List.mem_map.mp hr
+    exact List.mem_map.mpr ⟨r0, hr0, rfl⟩
+  · rintro ⟨ic, hic, hx⟩
+    obtain ⟨⟨e, al, kw⟩, cn⟩ := ic
+    obtain ⟨r0, hr0, rfl⟩ := List.mem_map.mp hx
+    refine ⟨_, ⟨(.mk e al kw, cn), hic, rfl⟩, _, ⟨normRef r0, ?_, rfl⟩, rfl⟩
+    simp only [Prod.map_apply]
+    rw [colSpecOf_srcs]
+    exact List.mem_map.mpr ⟨r0, hr0, rfl⟩
+
+theorem specPairsPos_isCol (env : Env) (tgt : List String) (cs : List String) (its : List Item) (frm : List FromExpr) :
+    ∀ p ∈ specPairsPos env tgt cs its frm, p.1.isCol = true := by
+  intro p hp
+  unfold specPairsPos at hp
+  obtain ⟨ic, _, hic⟩ := List.mem_flatMap.mp hp
+  obtain ⟨⟨e, a, k⟩, cn⟩ := ic
+  simp only [List.mem_map] at hic
+  obtain ⟨r, _, rfl⟩ := hic
+  rfl
+
+/-- **end to end, query level, column list** -/
+theorem exWriteQueryCols_exact (env : Env) (isInsert : Bool) (tgt : List String) (cs : List String) (d : Bool)
+    (its : List Item) (frm : List FromExpr) (wh : Option Expr) (grp : List Expr) (hav : Option Expr)
+    (hp : env.prov.truthy = false) (hfrag : fragSelectCols env tgt cs (.select d its frm wh grp hav) = true) :
+    ∃ g, exWriteQuery env isInsert tgt (some cs) (.select d its frm wh grp hav) = .ok g ∧
+      EdgesExact g (specPairsPos env tgt cs its frm) (fromTabs env frm) (listedOwners env tgt cs) := by
+  simp only [fragSelectCols, Bool.and_eq_true, Bool.not_eq_true', List.any_eq_false, beq_iff_eq, decide_eq_true_eq] at hfrag
+  obtain ⟨⟨⟨⟨⟨⟨hf, hw⟩, hU⟩, hself⟩, hlen⟩, hnd⟩, hits⟩ := hfrag
+  have hTR := fromTabs_isTabRef env frm
+  obtain ⟨s, nm, al, hmk⟩ : ∃ s nm al, mkTable env tgt none = ⟨.table s nm, al⟩ := ⟨_, _, _, rfl⟩
+  have hprinted : (mkTable env tgt none).printed = s ++ "." ++ nm := by rw [hmk]; rfl
+  have hd : (mkTable env tgt none).d = .table s nm := by rw [hmk]
+  have hself' : ∀ o ∈ fromTabs env frm, o.d ≠ .table s nm := fun o ho => by
+    have := hself o ho; rw [hd] at this; simpa using this
+  unfold listedOwners
+  rw [hd, hprinted] at hnd
+  rw [hd] at hits
+  rw [hd, hprinted]
+  -- the two target holders
+  have hW := addWriteColumns_g0 s nm al (cs.map listColumn) (by rw [listColumn_addParent]; exact hnd)
+  rw [listColumn_addParent] at hW
+  have hWI := addWriteColumns_g0 s nm al (listedCols (DS.table s nm, s ++ "." ++ nm) cs)
+    (by rw [listedCols_addParent]; exact hnd)
+  rw [listedCols_addParent] at hWI
+  have hlc : (listedCols (DS.table s nm, s ++ "." ++ nm) cs).length = cs.length := by simp [listedCols]
+  have hcw : ∀ c ∈ listedCols (DS.table s nm, s ++ "." ++ nm) cs,
+      c.parent? = some (DS.table s nm, s ++ "." ++ nm) ∧ colOK c := by
+    intro c hc
+    obtain ⟨x, _, rfl⟩ := List.mem_map.mp hc
+    refine ⟨rfl, ?_⟩
+    intro p hp'
+    simp only [Column.mk1, List.mem_singleton] at hp'
+    rw [hp']; rfl
+  -- the holder after the reads
+  have hedgesI : ∀ u v, (u, v) ∈ (addWriteColumns (g0 ⟨.table s nm, al⟩) (listedCols (DS.table s nm, s ++ "." ++ nm) cs)).edges ↔
+      (u, v) ∈ (listedCols (DS.table s nm, s ++ "." ++ nm) cs).map (fun c => (Node.ds (DS.table s nm), c.key)) := by
+    intro u v; rw [hWI.edges, List.map_map]; rfl
+  obtain ⟨hb, hbE⟩ := readBase_gen _ (.table s nm) (fromTabs env frm) hTR
+    (wf_addWriteColumns _ (listedCols (DS.table s nm, s ++ "." ++ nm) cs) (g0_wf ⟨.table s nm, al⟩))
+    (by
+      intro u v he
+      obtain ⟨c, _, hc⟩ := List.mem_map.mp ((hedgesI u v).mp he)
+      cases hc
+      exact ⟨rfl, rfl⟩)
+    (by
+      intro a b he
+      obtain ⟨c, hc, hab⟩ := List.mem_map.mp ((hedgesI a b).mp he)
+      cases hab
+      rw [hWI.ety c.key (List.mem_map.mpr ⟨c, hc, rfl⟩)]
+      rfl)
+    (by
+      apply payOK_addWriteColumns
+      · intro n c h; rw [g0_payload _ rfl] at h; cases h
+      · intro c hc t ht
+        have htT : t = .table s nm := by
+          unfold writeSet at ht
+          rw [mem_tagSet, g0_tag] at ht
+          by_cases hx : Node.ds t = Node.ds (DS.table s nm) ∧ Tag.write = Tag.write
+          · exact Node.ds.inj hx.1
+          · rw [if_neg hx] at ht; cases ht
+        intro p hp'
+        obtain ⟨x, _, rfl⟩ := List.mem_map.mp hc
+        simp only [Column.addParent, Column.mk1] at hp'
+        rcases mem_insertParent _ _ _ hp' with h1 | h1
+        · rw [h1, htT]; rfl
+        · simp only [List.mem_singleton] at h1
+          rw [h1]; rfl)
+    (by
+      intro d' x
+      rw [(sameDs_addWriteColumns _ _).eq, g0_tag]
+      simp only [Node.ds.injEq])
+  have hwc1 := WC.foldl_addReadO (fromTabs env frm) _ (WC.ofWInv hWI) hTR hself'
+  have hcte : cteObjs (addWriteColumns (g0 ⟨.table s nm, al⟩) (listedCols (DS.table s nm, s ++ "." ++ nm) cs)) = [] := by
+    apply cteObjs_nil
+    intro d'
+    rw [(sameDs_addWriteColumns _ _).eq, g0_tag]; simp
+  have hits' : ∀ it ∈ its, itemOK env.importDefault (fromTabs env frm) (some (.table s nm)) it = true :=
+    fun it hit => List.all_eq_true.mp hits it hit
+  obtain ⟨g2, hg2, hw2⟩ := endOfQueryCleanupPos_wired env.importDefault _ s nm (fromTabs env frm)
+    (its.map (colSpecOf env)) env.revStar (KEYSof env.importDefault (fromTabs env frm))
+    (listedCols (DS.table s nm, s ++ "." ++ nm) cs) (by rw [List.length_map, hlc]; exact hlen) hb hself' hwc1 hcw
+    (by
+      intro c hc g' hfr
+      obtain ⟨it, hit, rfl⟩ := List.mem_map.mp hc
+      have hk := toSourceColumns_keys env.importDefault g' (fromTabs env frm) (colSpecOf env it) env.revStar hTR
+        (aliasOK_frame hfr hb.alias) hU (some (.table s nm)) (by intro T' hT'; cases hT'; exact hself')
+        (by
+          intro r hr
+          obtain ⟨e, a, kw⟩ := it
+          rw [colSpecOf_srcs] at hr
+          obtain ⟨r0, hr0, rfl⟩ := List.mem_map.mp hr
+          have := hits' _ hit
+          simp only [itemOK, Bool.and_eq_true, List.all_eq_true] at this
+          exact this.2 r0 hr0)
+      exact ⟨hk.1, fun y hy => ⟨(hk.2 y hy).1, (hk.2 y hy).2 _ rfl⟩⟩)
+  refine ⟨_, ?_, edgesExact_compose (addWriteColumns (g0 ⟨.table s nm, al⟩) (cs.map listColumn)) g2 _ _ _ ?_
+    (edgesExact_of_wired hb (hw2.congr ?_) (specPairsPos_isCol env tgt cs its frm) ?_ ?_)⟩
+  · rw [exWriteQuery_eq]
+    unfold wq0
+    rw [writeTargetHolder_some env isInsert tgt cs hp s nm al hmk,
+      exQuery_tab env _ d its frm wh grp hav (noSubI_of_items _ _ _ its hits) hf hw,
+      initHolder_ctxOf_listed s nm al cs hnd, finishBranches_single, tablesOfFrom_tab env _ hcte frm hf, hg2]
+    simp only
+    rw [expandWildcard_id env.prov g2 hp hw2.pay]
+  · -- the target holder's edges are in the select holder
+    intro e he
+    rw [hW.edges, List.map_map] at he
+    obtain ⟨c, hc, rfl⟩ := List.mem_map.mp he
+    have h1 : (Node.ds (DS.table s nm), c.key) ∈ ((fromTabs env frm).foldl addReadO
+        (addWriteColumns (g0 ⟨.table s nm, al⟩) (listedCols (DS.table s nm, s ++ "." ++ nm) cs))).edges :=
+      (hbE _ _).mpr (Or.inl ((hedgesI _ _).mpr (List.mem_map.mpr ⟨c, hc, rfl⟩)))
+    exact (hw2.own _ _ rfl rfl).mpr (Or.inl h1)
+  · intro x
+    have := posPairs_spec env tgt cs its frm x
+    rw [hd, hprinted] at this
+    exact this
+  · intro u v
+    rw [hbE, hedgesI]
+  · intro p hp'
+    obtain ⟨c, _, rfl⟩ := List.mem_map.mp hp'
+    exact ⟨rfl, rfl⟩
+
+
 end SqlLineage.ColumnsExact
